@@ -81,9 +81,6 @@ class Capture:
 
         import nauyaca.server.server as S
 
-        self.dir = tempfile.mkdtemp(prefix="nv-mw-")
-        with open(os.path.join(self.dir, "index.gmi"), "w") as f:
-            f.write("# capsule\n")
         self.probe: Callable[[Callable], Awaitable[None]] | None = None
         self.created = False
         self.finished = False
@@ -111,19 +108,26 @@ class Capture:
         # the TLS context is irrelevant to the middleware checks; avoid generating an RSA key per case
         S._create_self_signed_context = lambda request_client_cert=False: ssl.SSLContext(ssl.PROTOCOL_TLS_SERVER)
 
-    def server_section(self) -> list[str]:
-        return ["[server]", f"document_root = {toml_value(self.dir)}", 'host = "localhost"', ""]
+    def run(self, toml_tables: str, probe) -> tuple[bool, str]:
+        """toml_tables: the tables under test (e.g. `[access_control] …`); a `[server]` table pointing at a fresh
+        temporary document root is put in front.  The directory is removed after the run."""
+        import shutil
 
-    def run(self, toml_text: str, probe) -> tuple[bool, str]:
         from typer.testing import CliRunner
 
         import nauyaca.__main__ as M
 
-        path = os.path.join(self.dir, f"c{os.getpid()}.toml")
-        with open(path, "w", encoding="utf-8") as f:
-            f.write(toml_text)
-        self.probe, self.created, self.finished = probe, False, False
-        r = CliRunner().invoke(M.app, ["serve", "--config", path, "--log-level", "ERROR"])
+        d = tempfile.mkdtemp(prefix="nv-mw-")
+        try:
+            with open(os.path.join(d, "index.gmi"), "w") as f:
+                f.write("# capsule\n")
+            path = os.path.join(d, "config.toml")
+            with open(path, "w", encoding="utf-8") as f:
+                f.write(f"[server]\ndocument_root = {toml_value(d)}\nhost = \"localhost\"\n\n" + toml_tables)
+            self.probe, self.created, self.finished = probe, False, False
+            r = CliRunner().invoke(M.app, ["serve", "--config", path, "--log-level", "ERROR"])
+        finally:
+            shutil.rmtree(d, ignore_errors=True)
         try:
             import structlog
 
